@@ -26,6 +26,8 @@ class Flight:
     origin: Any = None    # sending SimEndpoint / transport (None for injected)
     note: str = ""
     real_src: tuple | None = None   # private address of the sender before NAT
+    segment: Any = None   # NatBox whose LAN segment carries this flight directly (no translation), else None
+    src_box: Any = None   # NatBox the sender sits behind, if any
 
     def key(self) -> tuple:
         return (self.src, self.dst, self.data)
@@ -117,9 +119,11 @@ class NatBox:
         self.next_port = 20000
         self.dropped: list[Flight] = []
         self.inside: set[tuple] = set()
+        self.hosts: dict[tuple, Any] = {}          # private addr -> endpoint (two boxes may number their LANs alike)
 
-    def add_host(self, private_addr: tuple) -> None:
+    def add_host(self, private_addr: tuple, ep: Any = None) -> None:
         self.inside.add(private_addr)
+        self.hosts[private_addr] = ep
 
     def outbound(self, private_src: tuple, dst: tuple) -> tuple:
         pub = self.map_out.get(private_src)
@@ -164,7 +168,8 @@ class SimNet:
         self.escaped: list[tuple] = []
         self.seq = 0
         self.on_send: Callable[[Flight], list[Flight] | None] | None = None   # fault hook: may return replacements
-        self.nat_of: dict[tuple, NatBox] = {}      # private address -> box
+        self.nat_of: dict[tuple, NatBox] = {}      # private address -> box (last host registered with that address)
+        self.box_of_ep: dict[int, NatBox] = {}     # id(endpoint) -> box
         self.nat_by_ip: dict[str, NatBox] = {}
         self._pump_scheduled = False
         self.single_step = False
@@ -182,21 +187,31 @@ class SimNet:
         self.nat_by_ip[box.public_ip] = box
 
     def put_behind(self, ep: SimEndpoint, box: NatBox) -> None:
-        self.nat_of[_norm(ep.wan_address)] = box
-        box.add_host(_norm(ep.wan_address))
+        addr = _norm(ep.wan_address)
+        self.nat_of[addr] = box
+        self.box_of_ep[id(ep)] = box
+        box.add_host(addr, ep)
+        if self.nodes.get(addr) is ep:
+            del self.nodes[addr]                    # reachable through its box (or its LAN segment) only
+
+    def box_of(self, ep: Any) -> NatBox | None:
+        return self.box_of_ep.get(id(ep))
 
     # sending ---------------------------------------------------------------------------------------------
     def send(self, origin: Any, dst: tuple, data: bytes, src: tuple | None = None) -> Flight | None:
         self.seq += 1
         real = _norm(src or origin.wan_address)
         seen_src = real
-        box = self.nat_of.get(real)
+        box = self.box_of_ep.get(id(origin))
+        segment = None
         if box is not None:
             if _norm(dst) in box.inside:
                 seen_src = real                      # same LAN segment: direct
+                segment = box
             else:
                 seen_src = box.outbound(real, _norm(dst))
-        fl = Flight(self.seq, seen_src, _norm(dst), data, self.now(), origin, real_src=real)
+        fl = Flight(self.seq, seen_src, _norm(dst), data, self.now(), origin, real_src=real, segment=segment,
+                    src_box=box)
         self.log.append(fl)
         out = [fl]
         if self.on_send is not None:
@@ -245,8 +260,10 @@ class SimNet:
             self.inflight.remove(fl)
         dst = fl.dst
         box = self.nat_by_ip.get(dst[0])
-        if box is not None:
-            if fl.real_src is not None and fl.real_src in box.inside and dst[0] == box.public_ip:
+        if fl.segment is not None:
+            node = fl.segment.hosts.get(dst)         # over the sender's own LAN segment
+        elif box is not None:
+            if fl.src_box is box:
                 box.dropped.append(fl)               # no hair-pinning
                 self.lost.append(fl)
                 return False
@@ -256,11 +273,10 @@ class SimNet:
                 self.lost.append(fl)
                 return False
             dst = priv
-        elif dst in self.nat_of and (fl.real_src is None or self.nat_of.get(fl.real_src) is not self.nat_of[dst]):
-            # a private address is only reachable from the same LAN segment
-            self.lost.append(fl)
-            return False
-        node = self.nodes.get(dst)
+            node = box.hosts.get(priv)
+        else:
+            # public hosts only: a private address is reachable from its own LAN segment and nowhere else
+            node = self.nodes.get(dst)
         if node is None:
             self.lost.append(fl)
             return False
